@@ -546,4 +546,42 @@ def World.bufs (w : World) (name : String) : List (String × List UInt8) :=
   | some c => c.bufs
   | none => []
 
+/-! ## MockSupportPlugin -/
+
+/-- `checkExpectationsOfLastActualCall` with a reporter that records and goes on (the plugin's):
+    every scope's call in flight is finished, every failure is delivered -/
+def checkLastsAll : List Scope → List Scope × List String
+  | [] => ([], [])
+  | s :: rest =>
+    match s.checkLast, checkLastsAll rest with
+    | (s1, f), (rest1, fs) => (s1 :: rest1, f.toList ++ fs)
+
+/-- `wasLastActualCallFulfilled` -/
+def Scope.lastFulfilled (sc : Scope) : Bool :=
+  match sc.last with
+  | some c => c.state == .succeed
+  | none => true
+
+/-- `mock().checkExpectations()` under a reporter that does not leave the test: the failures it
+    delivers, in order (calls in flight; then unfulfilled expectations if every last call was
+    fulfilled — `failTest` clears the mock, so nothing follows —, else out-of-order calls) -/
+def World.checkAllFailures (w : World) : List String :=
+  match checkLastsAll (w.glob :: w.subs) with
+  | (scs, fs) =>
+    if scs.all Scope.lastFulfilled && scs.any Scope.hasUnfulfilled then fs ++ [msgUnfulfilled]
+    else if scs.any Scope.hasOutOfOrder then fs ++ [msgOutOfOrder]
+    else fs
+
+/-- what a test body leaves behind: the mock, whether the test has failed, the failures reported -/
+structure BodyResult where
+  w      : World
+  failed : Bool
+  msgs   : List String
+deriving Repr, Inhabited
+
+/-- `MockSupportPlugin::postTestAction`: `if (!test.hasFailed()) mock().checkExpectations();
+    mock().clear();` — the failures it adds to the test, and the mock afterwards -/
+def pluginPost (r : BodyResult) : List String × World :=
+  (if r.failed then [] else r.w.checkAllFailures, r.w.clear "")
+
 end Mock
